@@ -45,7 +45,7 @@ RULE = ('class forests are enumerated exhaustively under a total deviation budge
         'case) and carries any of two qualifier types Q1, Q2 at class, feature and parameter '
         'level (fresh value or the value of the nearest ancestor site); cost = feature '
         'declarations + qualifier attachments + non-standard override variants + 1 if superclass '
-        'references and query names are written in upper case; the flavors of the qualifier '
+        'references and query names are written in upper case (and qualifier names below the roots in lower case); the flavors of the qualifier '
         'types actually used range over {ToSubclass, Restricted} x {EnableOverride, '
         'DisableOverride}; every root has a key property k. Creation paths: CreateClass; MOF '
         '(compile_mof_string); ModifyClass (each class is created with a placeholder content - '
@@ -324,7 +324,10 @@ def concretize(par, cls, supercase=False):
         sup = None if par[i] == -1 else cname(par[i])
         if sup and supercase:
             sup = sup.upper()
-        d = {'name': cname(i), 'super': sup, 'quals': [[qn, v['q'][qn]] for qn in sorted(v['q'])],
+        # with `supercase`, classes below the roots also spell the names of the qualifiers they
+        # attach in another lexical case than the declaration and their ancestors (Q1 -> q1)
+        wq = (lambda q: q.lower()) if supercase and par[i] != -1 else (lambda q: q)
+        d = {'name': cname(i), 'super': sup, 'quals': [[wq(qn), v['q'][qn]] for qn in sorted(v['q'])],
              'props': [], 'meths': []}
         if par[i] == -1:
             d['props'].append({'name': 'k', 'type': 'string', 'quals': [['Key', True]]})
@@ -349,11 +352,11 @@ def concretize(par, cls, supercase=False):
             quals = []
             if is_override and variant != 'X':
                 quals.append(['Override', fn.upper() if 'O' in variant else fn])
-            quals += [[qn, fv['q'][qn]] for qn in sorted(fv['q'])]
+            quals += [[wq(qn), fv['q'][qn]] for qn in sorted(fv['q'])]
             if fn == 'm':
                 d['meths'].append({'name': name, 'rtype': 'uint32', 'quals': quals,
                                    'params': [{'name': 'a', 'type': 'string',
-                                               'quals': [[qn, fv['aq'][qn]] for qn in sorted(fv['aq'])]}]})
+                                               'quals': [[wq(qn), fv['aq'][qn]] for qn in sorted(fv['aq'])]}]})
             else:
                 d['props'].append({'name': name, 'type': 'string', 'quals': quals})
         vals.append(v)
